@@ -30,6 +30,7 @@ EXPLANATION = (
 EXPLANATION += ' C09.R5 also requires that after traceparent the tracestate Set can only be skipped on the empty() edge of the header string. C09.R7 (re-entrancy): no function-local static of the parse/validate/inject functions is modified after its initialisation.'
 EXPLANATION += ' C09.R8 (bounded regex): every std::regex applied to header bytes either has a finite maximal match length (computed from the pattern by the same normal form as C14.R7) or is reached only behind a size guard - an unbounded quantifier over attacker-sized input recurses without bound in libstdc++.'
 ROUND2_EXPLANATION = (' C09.R9: every memcmp / memcpy on the representation of TraceId / SpanId covers the static extent of the array. C09.R10: the fields are split from Trim(carrier.Get(traceparent)) and the trace state is parsed from carrier.Get(tracestate) (dependence through the inlined private helpers). Shared C16.R5: HttpTraceContext is a function of (carrier, given context).')
+ROUND2_EXPLANATION += (' C09.R3 also folds value ranges of index expressions through narrow unsigned types, masks, shifts and locals initialised once. C09.R10 follows ?: selections inside the inlined trim helper.')
 EXPLANATION += ROUND2_EXPLANATION
 NOT_DECIDED = ('that exactly the W3C-well-formed byte strings are accepted over all inputs; memory safety of HexToBinary\'s '
                'variable-index writes (relational bound buffer_pos < buffer_size).')
